@@ -2213,7 +2213,14 @@ impl<'a> Socket<'a> {
         }
         if self.remote_win_len != 0 && self.timer.is_zero_window_probe() {
             tcp_trace!("stopping zero-window-probe timer");
-            self.timer.set_for_idle(cx.now(), self.keep_alive);
+            if self.remote_last_seq != self.local_seq_no {
+                // Sequence space sent before the window closed is still unacknowledged:
+                // it needs the retransmission timer, not an idle one.
+                let rto = self.rtte.retransmission_timeout();
+                self.timer.set_for_retransmit(cx.now(), rto);
+            } else {
+                self.timer.set_for_idle(cx.now(), self.keep_alive);
+            }
         }
 
         let payload_len = payload.len();
